@@ -169,20 +169,28 @@ Lemma iexec_foreach a k v b : iexec cm funs clos (S n) fn (SForeach a k v b) fr 
       end
   end.
 Proof. reflexivity. Qed.
-Definition irun_clause (b : stmt) (fr : frame) (g : glob) : res ictl :=
-  match iexec cm funs clos n fn b fr g with
-  | Fuel => Fuel
-  | Res cb fr g => Res (switch_ctl cb) fr g
+Definition irunc := fix run (l : clauses) (fr : frame) (g : glob) : res ictl :=
+  match l with
+  | CLNil => Res INone fr g
+  | CLCase _ b r | CLDefault b r =>
+      match iexec cm funs clos n fn b fr g with
+      | Fuel => Fuel
+      | Res cb fr g =>
+          match cb with
+          | INone => run r fr g
+          | _ => Res (switch_ctl cb) fr g
+          end
+      end
   end.
 Definition icases (cl : clauses) (cv : value) := fix cases (l : clauses) (fr : frame) (g : glob) : res ictl :=
   match l with
-  | CLNil => match default_of cl None with Some b => irun_clause b fr g | None => Res INone fr g end
+  | CLNil => irunc (default_entry cl) fr g
   | CLDefault _ r => cases r fr g
-  | CLCase e b r =>
+  | CLCase e _ r =>
       match ev e fr g with
       | Fuel => Fuel
       | Res (EX x) fr g => Res (IThrow x) fr g
-      | Res (EV v) fr g => if switch_match cv v then irun_clause b fr g else cases r fr g
+      | Res (EV v) fr g => if switch_match cv v then irunc l fr g else cases r fr g
       end
   end.
 Lemma iexec_switch c cl : iexec cm funs clos (S n) fn (SSwitch c cl) fr g =
@@ -203,10 +211,8 @@ Lemma iexec_return e : iexec cm funs clos (S n) fn (SReturn (Some e)) fr g =
   | Res (EV v) fr g => Res (IRet v) fr g | Res (EX x) fr g => Res (IThrow x) fr g | Fuel => Fuel end.
 Proof. reflexivity. Qed.
 Lemma iexec_static x init : iexec cm funs clos (S n) fn (SStatic x init) fr g =
-  if String.eqb fn "" then let '(fr', g') := wr fn x init fr g in Res INone fr' g'
-  else
-    let st := match sget (fn, x) (gstat g) with Some _ => gstat g | None => sset (fn, x) init (gstat g) end in
-    Res INone (fst fr, x :: snd fr) (set_stat st g).
+  let st := match sget (fn, x) (gstat g) with Some _ => gstat g | None => sset (fn, x) init (gstat g) end in
+  Res INone (fst fr, x :: snd fr) (set_stat st g).
 Proof. reflexivity. Qed.
 Lemma iexec_try b cs f : iexec cm funs clos (S n) fn (STry b cs f) fr g =
   match iexec cm funs clos n fn b fr (mark CTry g) with
@@ -1177,7 +1183,6 @@ Proof.
   - simpl. auto.
 Qed.
 
-(* one switch clause that does not fall through (it is the last clause, or it ends in a jump) *)
 Lemma rrunc_unfold fn id b r fr g :
   rrunc cmr funs clos n fn id (RCLDefault b r) fr g =
   match rexec cmr funs clos n fn b fr g with
@@ -1193,60 +1198,73 @@ Proof. reflexivity. Qed.
 Lemma rrunc_case fn id e b r fr g :
   rrunc cmr funs clos n fn id (RCLCase e b r) fr g = rrunc cmr funs clos n fn id (RCLDefault b r) fr g.
 Proof. reflexivity. Qed.
+Lemma irunc_unfold fn b r fr g :
+  irunc cmi funs clos n fn (CLDefault b r) fr g =
+  match iexec cmi funs clos n fn b fr g with
+  | Fuel => Fuel
+  | Res cb fr g => match cb with INone => irunc cmi funs clos n fn r fr g | _ => Res (switch_ctl cb) fr g end
+  end.
+Proof. reflexivity. Qed.
+Lemma irunc_case fn e b r fr g :
+  irunc cmi funs clos n fn (CLCase e b r) fr g = irunc cmi funs clos n fn (CLDefault b r) fr g.
+Proof. reflexivity. Qed.
 
-Lemma sim_run_clause fn stk path i b r fr g :
-  scoped (S (List.length stk)) b = true -> one_default b = true -> clean_stmt (is_main fn) b = true ->
-  shorter stk path ->
-  (match r with CLNil => true | _ => ends_jump b end) = true ->
-  rrel stk (irun_clause cmi funs clos n fn b fr g)
-           (rrunc cmr funs clos n fn path
-              (RCLDefault (resolve (path :: stk) (i :: path) b) (resolve_clauses (path :: stk) path (S i) r)) fr g).
+(* running the clauses from an entry point on, with fall-through, on both sides *)
+Lemma sim_runc fn stk path : shorter stk path -> forall l i fr g,
+  scoped_clauses (S (List.length stk)) l = true -> one_default_clauses l = true ->
+  clean_clauses (is_main fn) l = true ->
+  rrel stk (irunc cmi funs clos n fn l fr g)
+           (rrunc cmr funs clos n fn path (resolve_clauses (path :: stk) path i l) fr g).
 Proof.
-  intros H1 H2 H3 Hsh Hend. unfold irun_clause. rewrite rrunc_unfold.
-  pose proof (IH fn b (path :: stk) (i :: path) fr g H1 H2 H3 (shorter_push _ _ _ Hsh)) as R.
-  destruct (iexec cmi funs clos n fn b fr g) as [|ci fi gi];
-    destruct (rexec cmr funs clos n fn (resolve (path :: stk) (i :: path) b) fr g) as [|cr fr' gr] eqn:ER;
-    simpl in R; try contradiction; [exact I|].
-  destruct R as (R & <- & <-).
-  pose proof (switch_ctl_rel stk path ci cr R (shorter_neq _ _ Hsh)) as SW.
-  destruct cr; simpl in SW.
-  - (* the body completed normally: it must be the last clause *)
-    destruct r.
-    + cbn [resolve_clauses]. simpl. destruct ci; simpl in R; try contradiction. simpl. auto.
-    + exfalso. eapply ends_jump_not_none; eauto.
-    + exfalso. eapply ends_jump_not_none; eauto.
-  - destruct (lid_eqb l path); simpl; auto.
-  - destruct (lid_eqb l path); simpl; auto.
+  intros Hsh. induction l as [|e b r IHr|b r IHr]; intros i fr g H1 H2 H3.
   - simpl. auto.
-  - simpl. auto.
+  - cbn [resolve_clauses]. rewrite irunc_case, rrunc_case.
+    cbn [scoped_clauses one_default_clauses clean_clauses] in *.
+    apply andb_prop in H1 as [H1 H1r]. apply andb_prop in H2 as [H2 H2r]. apply andb_prop in H3 as [H3 H3r].
+    rewrite irunc_unfold, rrunc_unfold.
+    pose proof (IH fn b (path :: stk) (i :: path) fr g H1 H2 H3 (shorter_push _ _ _ Hsh)) as R.
+    split_rel R ci fi gi cr fr' gr.
+    pose proof (switch_ctl_rel stk path ci cr R (shorter_neq _ _ Hsh)) as SW.
+    destruct ci, cr; simpl in R; try contradiction.
+    + apply IHr; auto.
+    + simpl in SW |- *. destruct (lid_eqb l path); simpl; auto.
+    + simpl in SW |- *. destruct (lid_eqb l path); simpl; auto.
+    + simpl. auto.
+    + simpl. auto.
+  - cbn [resolve_clauses].
+    cbn [scoped_clauses one_default_clauses clean_clauses] in *.
+    apply andb_prop in H1 as [H1 H1r]. apply andb_prop in H2 as [H2 H2r]. apply andb_prop in H3 as [H3 H3r].
+    rewrite irunc_unfold, rrunc_unfold.
+    pose proof (IH fn b (path :: stk) (i :: path) fr g H1 H2 H3 (shorter_push _ _ _ Hsh)) as R.
+    split_rel R ci fi gi cr fr' gr.
+    pose proof (switch_ctl_rel stk path ci cr R (shorter_neq _ _ Hsh)) as SW.
+    destruct ci, cr; simpl in R; try contradiction.
+    + apply IHr; auto.
+    + simpl in SW |- *. destruct (lid_eqb l path); simpl; auto.
+    + simpl in SW |- *. destruct (lid_eqb l path); simpl; auto.
+    + simpl. auto.
+    + simpl. auto.
 Qed.
 
-Lemma default_of_no_default r acc : count_default r = 0%nat -> default_of r acc = acc.
-Proof. revert acc. induction r; simpl; intros; auto; discriminate. Qed.
-
-(* no case matched: the default block, if any *)
-Lemma sim_default fn stk path : forall cl i fr g,
+(* the entry when no case matches: the suffix from `default` on, the same on both sides *)
+Lemma sim_default_entry fn stk path : shorter stk path -> forall cl i fr g,
   scoped_clauses (S (List.length stk)) cl = true -> one_default_clauses cl = true ->
-  clean_clauses (is_main fn) cl = true -> (count_default cl <= 1)%nat -> shorter stk path ->
-  rrel stk (match default_of cl None with Some b => irun_clause cmi funs clos n fn b fr g | None => Res INone fr g end)
+  clean_clauses (is_main fn) cl = true ->
+  rrel stk (irunc cmi funs clos n fn (default_entry cl) fr g)
            (rrunc cmr funs clos n fn path (from_default (resolve_clauses (path :: stk) path i cl)) fr g).
 Proof.
-  induction cl as [|e b r IHr|b r IHr]; intros i fr g H1 H2 H3 Hc Hsh;
-    cbn [default_of resolve_clauses from_default].
+  intros Hsh. induction cl as [|e b r IHr|b r IHr]; intros i fr g H1 H2 H3;
+    cbn [default_entry resolve_clauses from_default].
   - simpl. auto.
-  - cbn [scoped_clauses one_default_clauses clean_clauses count_default] in *.
-    apply andb_prop in H1 as [_ H1]. apply andb_prop in H2 as [_ H2].
-    apply andb_prop in H3 as [H3 H3r]. apply IHr; auto.
-  - cbn [scoped_clauses one_default_clauses clean_clauses count_default] in *.
-    apply andb_prop in H1 as [H1 _]. apply andb_prop in H2 as [H2 _].
-    apply andb_prop in H3 as [H3 _]. apply andb_prop in H3 as [H3e H3].
-    rewrite default_of_no_default by lia.
-    apply sim_run_clause; auto.
+  - cbn [scoped_clauses one_default_clauses clean_clauses] in *.
+    apply andb_prop in H1 as [_ H1]. apply andb_prop in H2 as [_ H2]. apply andb_prop in H3 as [_ H3].
+    apply IHr; auto.
+  - apply (sim_runc fn stk path Hsh (CLDefault b r) i); auto.
 Qed.
 
 (* the case search of SwitchStatement.GetValue *)
 Lemma sim_cases fn stk path cl0 rcl0 cv :
-  (forall fr g, rrel stk (match default_of cl0 None with Some b => irun_clause cmi funs clos n fn b fr g | None => Res INone fr g end)
+  (forall fr g, rrel stk (irunc cmi funs clos n fn (default_entry cl0) fr g)
                          (rrunc cmr funs clos n fn path (from_default rcl0) fr g)) ->
   shorter stk path ->
   forall l i fr g,
@@ -1258,17 +1276,16 @@ Proof.
   intros D Hsh. induction l as [|e b r IHr|b r IHr]; intros i fr g H1 H2 H3;
     cbn [icases rfind resolve_clauses].
   - apply D.
-  - cbn [scoped_clauses one_default_clauses clean_clauses] in *.
-    apply andb_prop in H1 as [H1 H1r]. apply andb_prop in H2 as [H2 H2r].
-    apply andb_prop in H3 as [H3 H3r]. apply andb_prop in H3 as [H3e H3].
-    rewrite (ieval_reval funs clos fn _ _ Hcf).
+  - rewrite (ieval_reval funs clos fn _ _ Hcf).
     destruct (reval (rcallf cmr funs clos n) funs clos fn e fr g) as [|[v|x] f1 g1]; [simpl; auto| |simpl; auto].
     destruct (switch_match cv v).
-    + rewrite rrunc_case. apply sim_run_clause; auto.
-    + apply IHr; auto.
+    + apply (sim_runc fn stk path Hsh (CLCase e b r) i); auto.
+    + cbn [scoped_clauses one_default_clauses clean_clauses] in *.
+      apply andb_prop in H1 as [_ H1r]. apply andb_prop in H2 as [_ H2r]. apply andb_prop in H3 as [_ H3r].
+      apply IHr; auto.
   - cbn [scoped_clauses one_default_clauses clean_clauses] in *.
-    apply andb_prop in H1 as [H1 H1r]. apply andb_prop in H2 as [H2 H2r].
-    apply andb_prop in H3 as [H3 H3r]. apply IHr; auto.
+    apply andb_prop in H1 as [_ H1r]. apply andb_prop in H2 as [_ H2r]. apply andb_prop in H3 as [_ H3r].
+    apply IHr; auto.
 Qed.
 
 (* the catch search: same clause on both sides *)
@@ -1401,7 +1418,7 @@ Proof.
     rewrite iexec_switch, rexec_switch, (ieval_reval funs clos fn _ _ Hcf).
     destruct (reval (rcallf cmr funs clos n) funs clos fn c fr g) as [|[cv|x] f1 g1]; try (simpl; auto; fail).
     apply sim_cases; auto.
-    intros fr0 g0. apply sim_default; auto.
+    intros fr0 g0. apply sim_default_entry; auto.
   - (* SBreak *)
     destruct (target_in_scope _ _ Hs) as [l Hl]. rewrite Hl, iexec_break, rexec_brk. simpl. auto.
   - (* SContinue *)
@@ -1412,8 +1429,7 @@ Proof.
       destruct (reval (rcallf cmr funs clos n) funs clos fn e fr g) as [|[v|x] f1 g1]; simpl; auto.
     + rewrite iexec_return_none, rexec_return_none. simpl. auto.
   - (* SStatic *)
-    rewrite iexec_static, rexec_static.
-    unfold is_main in Hc. apply negb_true_iff in Hc. rewrite Hc. simpl. auto.
+    rewrite iexec_static, rexec_static. simpl. auto.
   - (* STry *)
     apply andb_prop in Hs as [Hs Hs3]. apply andb_prop in Hs as [Hs1 Hs2].
     apply andb_prop in Ho as [Ho Ho3]. apply andb_prop in Ho as [Ho1 Ho2].
@@ -1559,11 +1575,12 @@ Proof.
   - intros [= <- <- <-]. right. left. auto.
 Qed.
 
-(* ---------- the recorded defect classes: witnesses that ImplSem (= the code) differs ---------- *)
+(* ---------- small programs used in Examples / Properties ---------- *)
 Definition lit (z : Z) := ELit (VInt z).
 Definition str (s : string) := ELit (VStr s).
 Definition P0 (m : stmt) : prog := {| funcs := []; closures := []; main := m |}.
 
+(* the former defect classes, now repaired in /repo (8109483, d3ebf7f): ImplSem and RefSem agree on them *)
 (* switch (1) { case 1: echo "a"; case 2: echo "b"; } *)
 Definition w_fallthrough : prog :=
   P0 (SSwitch (lit 1) (CLCase (lit 1) (SEcho (str "a")) (CLCase (lit 2) (SEcho (str "b")) CLNil))).
@@ -1577,16 +1594,10 @@ Definition w_default_first : prog :=
 Definition w_static_main : prog :=
   P0 (SFor (ACons (EAssign "i" (lit 0)) ANil) (EBin Lt (EVar "i") (lit 2)) (ACons (EPostInc "i") ANil)
         (SSeq (SStatic "x" (VInt 0)) (SSeq (SExpr (EPostInc "x")) (SEcho (EVar "x"))))).
-
-Lemma switch_fallthrough_refuted_l :
-  wf w_fallthrough = true /\ run_impl no_catch 50 w_fallthrough = ("a", EndOk) /\ run_ref no_catch 50 w_fallthrough = ("ab", EndOk).
-Proof. vm_compute. auto. Qed.
-Lemma switch_case_group_refuted_l :
-  wf w_case_group = true /\ run_impl no_catch 50 w_case_group = ("", EndOk) /\ run_ref no_catch 50 w_case_group = ("x", EndOk).
-Proof. vm_compute. auto. Qed.
-Lemma switch_default_not_last_refuted_l :
-  wf w_default_first = true /\ run_impl no_catch 50 w_default_first = ("d", EndOk) /\ run_ref no_catch 50 w_default_first = ("d1", EndOk).
-Proof. vm_compute. auto. Qed.
-Lemma static_in_main_refuted_l :
-  wf w_static_main = true /\ run_impl no_catch 50 w_static_main = ("11", EndOk) /\ run_ref no_catch 50 w_static_main = ("12", EndOk).
+Lemma repaired_classes_l :
+  map (run_impl no_catch 50) [w_fallthrough; w_case_group; w_default_first; w_static_main]
+  = [("ab", EndOk); ("x", EndOk); ("d1", EndOk); ("12", EndOk)] /\
+  map (run_ref no_catch 50) [w_fallthrough; w_case_group; w_default_first; w_static_main]
+  = [("ab", EndOk); ("x", EndOk); ("d1", EndOk); ("12", EndOk)] /\
+  forallb clean [w_fallthrough; w_case_group; w_default_first; w_static_main] = true.
 Proof. vm_compute. auto. Qed.
